@@ -848,4 +848,346 @@ theorem one_entry_iff_flagged {w : World} (hw : Fresh w) (ops : List Op) :
 theorem deferred_fifo {w : World} (hw : Fresh w) (ops : List Op) :
     (w.run ops).subs = (w.run ops).calls ++ (w.run ops).queue.map Fn.id :=
   (reachable_winv hw ops).fifo
+/-! ## recurring tasks: the next-slot arithmetic on exact integers -/
+
+theorem slotAfter_eq (n iv off : Nat) :
+    slotAfter n iv off = (off : Int) + (((n : Int) - off) / iv + 1) * iv := by
+  unfold slotAfter
+  simp only
+  have h := Int.emod_add_mul_ediv ((n : Int) - off) iv
+  have : ((n : Int) - off) - ((n : Int) - off) % iv = (iv : Int) * (((n : Int) - off) / iv) := by omega
+  rw [Int.add_mul, Int.one_mul, Int.mul_comm _ (iv : Int)]
+  omega
+
+/-- the slot is a grid point `offset + k·interval` -/
+theorem slotAfter_grid (n iv off : Nat) : ∃ k : Int, slotAfter n iv off = (off : Int) + k * iv :=
+  ⟨_, slotAfter_eq n iv off⟩
+
+/-- … strictly after `n` (the time of installation plus the jitter) -/
+theorem slotAfter_gt (n iv off : Nat) (hiv : 0 < iv) : (n : Int) < slotAfter n iv off := by
+  unfold slotAfter
+  simp only
+  have := Int.emod_lt_of_pos ((n : Int) - off) (by omega : (0 : Int) < iv)
+  omega
+
+/-- … and the first such: not more than one interval later -/
+theorem slotAfter_le (n iv off : Nat) (hiv : 0 < iv) : slotAfter n iv off ≤ (n : Int) + iv := by
+  unfold slotAfter
+  simp only
+  have := Int.emod_nonneg ((n : Int) - off) (by omega : (iv : Int) ≠ 0)
+  omega
+
+/-- no grid point lies strictly between `n` and the slot -/
+theorem slotAfter_first (n iv off : Nat) (hiv : 0 < iv) (k : Int)
+    (hk : (n : Int) < (off : Int) + k * iv) : slotAfter n iv off ≤ (off : Int) + k * iv := by
+  rw [slotAfter_eq]
+  have hpos : (0 : Int) < iv := by omega
+  -- (n - off) / iv + 1 ≤ k   ⇐   (n - off) / iv < k   ⇐   n - off < k * iv
+  have h1 : ((n : Int) - off) / iv < k := Int.ediv_lt_of_lt_mul hpos (by omega)
+  have h2 : (((n : Int) - off) / iv + 1) * iv ≤ k * iv := Int.mul_le_mul_of_nonneg_right (by omega) (by omega)
+  omega
+
+/-- fired exactly at a grid point `s`, re-installed with a jitter smaller than
+    the interval: the next slot is `s + interval` -/
+theorem slotAfter_succ (s jit iv off : Nat) (k : Int) (hs : (s : Int) = (off : Int) + k * iv)
+    (hj : jit < iv) : slotAfter (s + jit) iv off = (s : Int) + iv := by
+  unfold slotAfter
+  simp only
+  have hm : ((s + jit : Nat) : Int) - off = (jit : Int) + k * iv := by
+    have : ((s + jit : Nat) : Int) = (s : Int) + jit := by simp
+    omega
+  rw [hm, Int.add_mul_emod_self_right, Int.emod_eq_of_lt (by omega) (by omega)]
+  omega
+
+/-- the slot as the natural number the model stores -/
+theorem slotAfter_toNat (n iv off : Nat) (hiv : 0 < iv) :
+    ((slotAfter n iv off).toNat : Int) = slotAfter n iv off := by
+  have := slotAfter_gt n iv off hiv
+  omega
+
+/-- the firing times of a recurring task that is fired exactly when due:
+    `fireTime 0` is the slot computed at installation time `now`, `fireTime (k+1)`
+    the slot computed by the re-install inside `process_task` at time `fireTime k` -/
+def fireTime (now jit iv off : Nat) : Nat → Nat
+  | 0 => (slotAfter (now + jit) iv off).toNat
+  | k + 1 => (slotAfter (fireTime now jit iv off k + jit) iv off).toNat
+
+/-- **recurring_grid** — a recurring task installed at `now` fires at the first
+    grid point strictly after `now + jitter` and then once at each successive
+    grid point: the `k`-th firing is at `first + k·interval`, every firing time
+    is `offset + m·interval`, and all are strictly after the installation. -/
+theorem recurring_grid (now jit iv off : Nat) (hj : jit < iv) (k : Nat) :
+    (fireTime now jit iv off k : Int) = slotAfter (now + jit) iv off + k * iv ∧
+    (∃ m : Int, (fireTime now jit iv off k : Int) = (off : Int) + m * iv) ∧
+    now + jit < fireTime now jit iv off k := by
+  have hiv : 0 < iv := by omega
+  induction k with
+  | zero =>
+    refine ⟨?_, ?_, ?_⟩
+    · simp [fireTime, slotAfter_toNat _ _ _ hiv]
+    · obtain ⟨m, hm⟩ := slotAfter_grid (now + jit) iv off
+      exact ⟨m, by simp only [fireTime]; rw [slotAfter_toNat _ _ _ hiv, hm]⟩
+    · have := slotAfter_gt (now + jit) iv off hiv
+      have h2 := slotAfter_toNat (now + jit) iv off hiv
+      simp only [fireTime]; omega
+  | succ n ih =>
+    obtain ⟨h1, ⟨m, hm⟩, h3⟩ := ih
+    have hs := slotAfter_succ (fireTime now jit iv off n) jit iv off m hm hj
+    have ht := slotAfter_toNat (fireTime now jit iv off n + jit) iv off hiv
+    refine ⟨?_, ⟨m + 1, ?_⟩, ?_⟩
+    · simp only [fireTime]; rw [ht, hs, h1]; simp [Int.add_mul]; omega
+    · simp only [fireTime]; rw [ht, hs, hm]; simp [Int.add_mul]; omega
+    · simp only [fireTime]
+      have : ((fireTime now jit iv off n : Nat) : Int) + iv = ((fireTime now jit iv off n + iv : Nat) : Int) := by simp
+      omega
+
+/-- a late firing (at `now` > due time) does not cause a burst: the re-install
+    goes to the first grid point after `now + jitter`, at most one interval away -/
+theorem recurring_no_burst (now jit iv off : Nat) (hiv : 0 < iv) :
+    (now + jit : Int) < slotAfter (now + jit) iv off ∧ slotAfter (now + jit) iv off ≤ (now + jit : Int) + iv := by
+  have h1 := slotAfter_gt (now + jit) iv off hiv
+  have h2 := slotAfter_le (now + jit) iv off hiv
+  simp at h1 h2; omega
+
+theorem install_ttime (tm : TM) (tid : Nat) : (tm.install tid).1.ttime = tm.ttime := by
+  unfold TM.install
+  cases tm.ttime tid with
+  | none => rfl
+  | some t =>
+    simp only
+    split
+    · exact suspend_ttime tm tid
+    · rfl
+
+/-- what `RecurringTask.install_task()` leaves behind when the interval is set
+    and positive: no error, the task's time is the slot, and its one heap entry
+    is at that time with the newest installation number -/
+theorem installRecurring_time {tm : TM} {fired : List Fire} (h : SInv tm fired) (now tid iv : Nat)
+    (hiv : tm.ival tid = some iv) (hpos : iv ≠ 0) :
+    let t := (slotAfter (now + tm.jitter) iv (tm.offsetOf tid)).toNat
+    (tm.installRecurring now tid none none).2 = none ∧
+    (tm.installRecurring now tid none none).1.ttime tid = some t ∧
+    (tm.installRecurring now tid none none).1.heap.filter (fun e => decide (e.tid = tid)) = [⟨t, tm.counter, tid⟩] := by
+  intro t
+  unfold TM.installRecurring
+  have hset : tm.setRecurring tid none none = tm := rfl
+  simp only [hset, hiv, hpos, if_false]
+  have h0 : SInv { tm with ttime := upd tm.ttime tid (some t) } fired := h.congr rfl rfl rfl rfl
+  have hm := install_moves h0 tid t (by simp [upd])
+  refine ⟨hm.1, ?_, hm.2.1⟩
+  rw [install_ttime]
+  simp [upd, t]
+/-! ## a suspended task stays silent until somebody installs it again -/
+
+/-- the operations that (re-)arm task `t` -/
+def arms (t : Nat) : Op → Bool
+  | .installAt tid _ => tid == t
+  | .installAfter tid _ => tid == t
+  | .installBare tid => tid == t
+  | .installRec tid _ _ => tid == t
+  | .resume tid => tid == t
+  | _ => false
+
+/-- `t` is unscheduled in `w'` and has not fired since `w` -/
+def Quiet (t : Nat) (w w' : World) : Prop :=
+  w'.tm.flag t = false ∧ ∀ f ∈ w'.fired, f.tid = t → f ∈ w.fired
+
+theorem Quiet.trans {t : Nat} {a b c : World} (h1 : Quiet t a b) (h2 : Quiet t b c) : Quiet t a c :=
+  ⟨h2.1, fun f hf ht => h1.2 f (h2.2 f hf ht) ht⟩
+
+theorem keeps_quiet {t : Nat} {w w' : World} (hk : Keeps w w') (hf : w.tm.flag t = false) : Quiet t w w' := by
+  refine ⟨by rw [hk.flag]; exact hf, ?_⟩
+  intro f hf' _; rw [hk.fired] at hf'; exact hf'
+
+theorem suspend_flag_false {tm : TM} {t : Nat} (x : Nat) (h : tm.flag t = false) :
+    (tm.suspend x).flag t = false := by
+  unfold TM.suspend
+  split
+  · simp only [upd]; split <;> simp [h]
+  · exact h
+
+theorem install_flag_other {tm : TM} {t x : Nat} (hx : x ≠ t) (h : tm.flag t = false) :
+    (tm.install x).1.flag t = false := by
+  unfold TM.install
+  cases tm.ttime x with
+  | none => exact h
+  | some tt =>
+    simp only [upd, if_neg (Ne.symm hx)]
+    split
+    · exact suspend_flag_false x h
+    · exact h
+
+theorem installTask_flag_other {tm : TM} {t x : Nat} (now : Nat) (w d : Option Nat) (hx : x ≠ t)
+    (h : tm.flag t = false) : (tm.installTask now x w d).1.flag t = false := by
+  unfold TM.installTask
+  simp only
+  split
+  · exact h
+  · exact install_flag_other hx h
+
+theorem installRecurring_flag_other {tm : TM} {t x : Nat} (now : Nat) (iv off : Option Nat) (hx : x ≠ t)
+    (h : tm.flag t = false) : (tm.installRecurring now x iv off).1.flag t = false := by
+  unfold TM.installRecurring
+  simp only
+  split
+  · exact h
+  · split
+    · exact h
+    · exact install_flag_other hx h
+
+theorem process_quiet {t : Nat} {w : World} {e : Entry} (he : e.tid ≠ t) (hf : w.tm.flag t = false) :
+    (w.process e).1.tm.flag t = false ∧
+    ∀ f ∈ (w.process e).1.fired, f.tid = t → f ∈ w.fired := by
+  unfold World.process
+  simp only
+  generalize hw1 : ({ w with fired := w.fired ++ [Fire.mk e.tid e.time e.seq w.now w.tm.counter],
+                             out := w.out ++ [Ev.fire e.tid w.now e.time e.seq] } : World) = w1
+  have hk := deferAll_keeps w1 (w.body e.tid).defers
+  have hfl : (w1.deferAll (w.body e.tid).defers).tm.flag t = false := by rw [hk.flag, ← hw1]; exact hf
+  have hfi : ∀ f ∈ (w1.deferAll (w.body e.tid).defers).fired, f.tid = t → f ∈ w.fired := by
+    intro f hf' ht
+    rw [hk.fired, ← hw1] at hf'
+    rcases List.mem_append.mp hf' with h | h
+    · exact h
+    · simp at h; subst h; exact absurd ht he
+  generalize w1.deferAll (w.body e.tid).defers = w2 at *
+  split
+  · exact ⟨installRecurring_flag_other _ _ _ he hfl, hfi⟩
+  · exact ⟨hfl, hfi⟩
+
+theorem fireNext_quiet {t : Nat} {w : World} (h : WInv w) (hf : w.tm.flag t = false) :
+    Quiet t w w.fireNext.1 := by
+  unfold World.fireNext
+  rcases hg : w.tm.getNext w.now with ⟨e?, d, tm'⟩
+  cases e? with
+  | none =>
+    simp only
+    obtain ⟨rfl, _, _⟩ := getNext_none hg
+    exact ⟨hf, fun f hf' _ => hf'⟩
+  | some e =>
+    simp only
+    obtain ⟨_, _, hmem, _, _⟩ := getNext_some h.sched hg
+    have het : e.tid ≠ t := by
+      intro heq
+      have := (h.sched.flag_iff t).mpr ⟨e, hmem, heq⟩
+      rw [hf] at this; cases this
+    have hfl' : tm'.flag t = false := by
+      unfold TM.getNext at hg
+      split at hg
+      · simp at hg
+      · split at hg
+        · simp only [Prod.mk.injEq] at hg
+          obtain ⟨_, _, rfl⟩ := hg
+          simp only [upd]; split <;> simp [hf]
+        · simp at hg
+    have := process_quiet (w := { w with tm := tm' }) (e := e) het hfl'
+    split
+    · exact this
+    · exact this
+
+theorem drain_quiet {t : Nat} {w : World} (hf : w.tm.flag t = false) : Quiet t w w.drain :=
+  keeps_quiet (drain_keeps w) hf
+
+theorem runOnceLoop_quiet {t : Nat} (fuel : Nat) {w : World} (h : WInv w) (hf : w.tm.flag t = false) :
+    Quiet t w (w.runOnceLoop fuel).1 := by
+  induction fuel generalizing w with
+  | zero => exact ⟨hf, fun f hf' _ => hf'⟩
+  | succ n ih =>
+    unfold World.runOnceLoop
+    simp only
+    have q1 := fireNext_quiet h hf
+    have q2 := q1.trans (drain_quiet q1.1)
+    have hw := drain_winv (fireNext_winv h)
+    split
+    · exact q2.trans (ih hw q2.1)
+    · exact q2
+
+theorem runLoop_quiet {t : Nat} (fuel T : Nat) {w : World} (h : WInv w) (hf : w.tm.flag t = false) :
+    Quiet t w (w.runLoop fuel T).1 := by
+  induction fuel generalizing w with
+  | zero => exact ⟨hf, fun f hf' _ => hf'⟩
+  | succ n ih =>
+    unfold World.runLoop
+    simp only
+    have q1 := fireNext_quiet h hf
+    have h1 := fireNext_winv h
+    split
+    · exact q1.trans (ih h1 q1.1)
+    · split
+      · have hw := drain_winv (setTrig_winv false h1)
+        have q2 : Quiet t w.fireNext.1 ({ w.fireNext.1 with tm := { w.fireNext.1.tm with trig := false } } : World).drain :=
+          drain_quiet (w := { w.fireNext.1 with tm := { w.fireNext.1.tm with trig := false } }) q1.1
+        exact (q1.trans q2).trans (ih hw q2.1)
+      · split
+        · have q2 : Quiet t w.fireNext.1 ({ w.fireNext.1 with now := max w.fireNext.1.now T, tm := { w.fireNext.1.tm with trig := true } } : World).drain :=
+            drain_quiet (w := { w.fireNext.1 with now := max w.fireNext.1.now T, tm := { w.fireNext.1.tm with trig := true } }) q1.1
+          exact q1.trans q2
+        · have hw := drain_winv (setNow_winv (w.fireNext.1.now + w.fireNext.1.timeout w.fireNext.2.1) h1)
+          have q2 : Quiet t w.fireNext.1 ({ w.fireNext.1 with now := w.fireNext.1.now + w.fireNext.1.timeout w.fireNext.2.1 } : World).drain :=
+            drain_quiet (w := { w.fireNext.1 with now := w.fireNext.1.now + w.fireNext.1.timeout w.fireNext.2.1 }) q1.1
+          exact (q1.trans q2).trans (ih hw q2.1)
+
+theorem api_quiet {t : Nat} {w : World} (r : TM × Option Raised) (hf : r.1.flag t = false) :
+    Quiet t w (w.api r) := by
+  unfold World.api
+  simp only
+  split
+  · exact ⟨hf, fun f hf' _ => hf'⟩
+  · exact ⟨hf, fun f hf' _ => hf'⟩
+
+theorem step_quiet {t : Nat} {w : World} (op : Op) (h : WInv w) (hf : w.tm.flag t = false)
+    (ha : arms t op = false) : Quiet t w (w.step op).1 := by
+  cases op with
+  | installAt tid x => exact api_quiet _ (installTask_flag_other _ _ _ (by simpa [arms] using ha) hf)
+  | installAfter tid d => exact api_quiet _ (installTask_flag_other _ _ _ (by simpa [arms] using ha) hf)
+  | installBare tid => exact api_quiet _ (installTask_flag_other _ _ _ (by simpa [arms] using ha) hf)
+  | installRec tid iv off => exact api_quiet _ (installRecurring_flag_other _ _ _ (by simpa [arms] using ha) hf)
+  | suspend tid => exact ⟨suspend_flag_false tid hf, fun f hf' _ => hf'⟩
+  | resume tid => exact api_quiet _ (install_flag_other (by simpa [arms] using ha) hf)
+  | defer f => exact keeps_quiet (defer_keeps w f) hf
+  | tick d => exact ⟨hf, fun f hf' _ => hf'⟩
+  | next => exact fireNext_quiet h hf
+  | advOnce d => exact runOnceLoop_quiet _ (w := { w with now := w.now + d }) (setNow_winv _ h) hf
+  | advRun d fuel => exact runLoop_quiet _ _ h hf
+  | jumpRun fuel => exact runLoop_quiet _ _ h hf
+
+theorem run_quiet {t : Nat} {w : World} (ops : List Op) (h : WInv w) (hf : w.tm.flag t = false)
+    (ha : ∀ op ∈ ops, arms t op = false) : Quiet t w (w.run ops) := by
+  induction ops generalizing w with
+  | nil => exact ⟨hf, fun f hf' _ => hf'⟩
+  | cons op r ih =>
+    have q1 := step_quiet op h hf (ha op List.mem_cons_self)
+    exact q1.trans (ih (step_winv op h) q1.1 (fun o ho => ha o (List.mem_cons_of_mem _ ho)))
+
+/-- `suspend_task` leaves the task unflagged whenever the invariant holds
+    (found: cleared; not found: it was not flagged) -/
+theorem suspend_unflags {tm : TM} {fired : List Fire} (h : SInv tm fired) (t : Nat) :
+    (tm.suspend t).flag t = false := by
+  have h' := suspend_inv t h
+  have hno := suspend_no_tid t h
+  cases hfl : (tm.suspend t).flag t with
+  | false => rfl
+  | true =>
+    obtain ⟨e, he, het⟩ := (h'.flag_iff t).mp hfl
+    exact absurd het (hno e he)
+
+/-- **suspended_silent** — in any reachable state, suspend task `t`; whatever
+    happens afterwards (time passing, other tasks being installed, suspended,
+    fired, raising, …), as long as nobody installs or resumes `t` it does not
+    fire: every firing of `t` in the log was already there before. -/
+theorem suspended_silent {w : World} (hw : Fresh w) (before after : List Op) (t : Nat)
+    (ha : ∀ op ∈ after, arms t op = false) :
+    let v := w.run before
+    ∀ f ∈ ((v.step (.suspend t)).1.run after).fired, f.tid = t → f ∈ v.fired := by
+  intro v
+  have hv : WInv v := reachable_winv hw before
+  have hs : WInv (v.step (.suspend t)).1 := step_winv _ hv
+  have hfl : (v.step (.suspend t)).1.tm.flag t = false := suspend_unflags hv.sched t
+  exact (run_quiet after hs hfl ha).2
+
+/-- the same for a task that was never installed, or has fired and was not re-installed -/
+theorem unscheduled_silent {w : World} (hw : Fresh w) (before after : List Op) (t : Nat)
+    (hfl : (w.run before).tm.flag t = false) (ha : ∀ op ∈ after, arms t op = false) :
+    ∀ f ∈ ((w.run before).run after).fired, f.tid = t → f ∈ (w.run before).fired :=
+  (run_quiet after (reachable_winv hw before) hfl ha).2
 end BacVerif.C14
